@@ -202,6 +202,57 @@ def build_inputs(chk, n_pairs, n_triples):
     return inputs
 
 
+def _render_screen(t):
+    """render the diff of one enumerated pair with the built-in renderer, colour off: an exception or an escape code marks it"""
+    from nbdime import diff_notebooks
+    from nbdime.prettyprint import PrettyPrintConfig, pretty_print_notebook_diff
+    try:
+        a, b = concretize.concrete(t["base"]), concretize.concrete(t["local"])
+        d = diff_notebooks(a, b)
+    except Exception:
+        return None
+    out = io.StringIO()
+    try:
+        pretty_print_notebook_diff("a", "b", a, d, PrettyPrintConfig(out=out, use_color=False, use_git=False, use_diff=False))
+    except Exception as e:  # noqa
+        return "raised:%s" % type(e).__name__
+    text = out.getvalue()
+    if "\x1b[" in text and not has_esc(a) and not has_esc(b):
+        return "ansi"
+    if bool(d) != bool(text.strip()):
+        return "empty-iff-empty"
+    return None
+
+
+def render_sweep(chk, cap):
+    """EVERY TLC-enumerated pair is diffed and rendered once (built-in renderer, no colour); pairs a screen marks become
+    inputs of the matrix and are rendered under that very configuration (the screen selects, TLC decides)."""
+    from .corpus import enumerate_edits
+    from nbdime import diff_notebooks
+    tr = enumerate_edits(2, 0)
+    with multiprocessing.get_context("fork").Pool(common.NCPU) as pool:
+        why = pool.map(_render_screen, tr, chunksize=128)
+    groups = {}
+    for t, w in zip(tr, why):
+        if w:
+            groups.setdefault(w, []).append(t)
+    picked, keys = [], sorted(groups)
+    while len(picked) < cap and keys:
+        for k in list(keys):
+            if groups[k]:
+                picked.append(groups[k].pop())
+                if len(picked) >= cap:
+                    break
+            else:
+                keys.remove(k)
+    chk.notes["render_sweep"] = {"pairs_diffed_and_rendered": len(tr), "marked": sum(1 for w in why if w), "forwarded": len(picked)}
+    out = []
+    for t in picked:
+        a, b = concretize.concrete(t["base"]), concretize.concrete(t["local"])
+        out.append(("diff", {"a": a, "d": diff_notebooks(a, b), "b": b}))
+    return out
+
+
 def terminal_runs(chk):
     """The renderings as a user's shell runs them: real processes writing to their real stdout, under locales whose
     terminal encoding cannot represent everything a valid notebook may contain (non-ASCII text under an ASCII
@@ -251,6 +302,9 @@ def run():
     mergedrv.quiet_logging()
     terminal_runs(chk)
     INPUTS = build_inputs(chk, 16 if chk.quick else 120, 6 if chk.quick else 60)
+    swept = render_sweep(chk, 20 if chk.quick else 200)
+    first_swept = len(INPUTS) + 1
+    INPUTS = INPUTS + swept
     r = tlc.run("RenderMatrix", CFG % len(INPUTS), workers=1, timeout=1800, name="RenderMatrix", xmx="8g")
     if r.invariant_violated or r.error:
         raise tlc.TLCError("RenderMatrix: %s\n%s" % (r.error, r.out[-1500:]))
@@ -268,6 +322,8 @@ def run():
     elif len(cfgs) > 150000:
         rr.shuffle(cfgs)
         cfgs = cfgs[:150000]
+    # the configuration under which the sweep marked a pair
+    cfgs += [{"ign": [], "color": False, "words": False, "renderer": "builtin", "input": first_swept + j} for j in range(len(swept))]
     ctx = multiprocessing.get_context("fork")
     with ctx.Pool(common.NCPU) as pool:
         events = pool.map(render, list(enumerate(cfgs)), chunksize=32)
